@@ -224,7 +224,10 @@ type keptCounts map[string]int
 func countKept(out string) keptCounts {
 	k := keptCounts{}
 	for _, t := range tokenize(out) {
-		if isTag(t) {
+		// start and self-closing tags only: whether an END tag is written also depends on the
+		// closing-tag stack, which on ill-nested input is not monotone in the rule set (a dropped
+		// <my-x> left open makes a later </object> survive)
+		if isOpenTag(t) {
 			k["tag "+t.Name]++
 			for _, a := range t.Attr {
 				k["attr "+t.Name+" "+a.Key]++
